@@ -12,6 +12,7 @@
 mod common;
 use common::*;
 use serde_json::json;
+use vh::net::sctp_wire::parse_packet;
 use vh::*;
 
 #[derive(Clone)]
@@ -444,6 +445,103 @@ async fn run_plan(p: Plan) -> (Plan, Observed) {
     (p, o)
 }
 
+
+// ------------------------------------------------------------------------------ live pair
+/// Two REAL endpoints (DtlsTransport + SctpTransport + a negotiated reliable ordered channel each)
+/// over a loopback DTLS pair; the plaintext SCTP packets each DTLS side delivers pass through a
+/// fault function (addressed by direction, chunk type, ordinal) before they reach the other
+/// SctpTransport. Faults here are duplications of setup datagrams; afterwards the network is
+/// perfect. Oracle: both directions deliver every submitted message, in order, within 10 s --
+/// unless the channel was reported closed.
+#[derive(Clone, Debug)]
+struct LiveFault { name: &'static str, to_server: bool, chunk_ty: u8, copies: usize }
+
+fn chunk_types(pkt: &[u8]) -> Vec<u8> {
+    parse_packet(pkt).map(|p| p.chunks.iter().map(|c| c.ty).collect()).unwrap_or_default()
+}
+
+async fn live_pair(faults: Vec<LiveFault>) -> (Vec<Vec<u8>>, Vec<Vec<u8>>, bool, String) {
+    use rustrtc::transports::sctp::{DataChannel, DataChannelEvent, SctpTransport};
+    use std::sync::Arc;
+    use std::time::Duration;
+    let mut pair = vh::net::dtls_pair_connected().await;
+    let cfg = rustrtc::RtcConfiguration::default();
+    let mut ends = vec![];
+    let mut runners = vec![];
+    // side 0 = client (DTLS client side), side 1 = server
+    let rx_c = pair.client.app_rx.take().unwrap();
+    let rx_s = pair.server.app_rx.take().unwrap();
+    let dtls = [pair.client.dtls.clone(), pair.server.dtls.clone()];
+    let mut rxs = vec![rx_c, rx_s];
+    for side in 0..2 {
+        let (tx, rx) = tokio::sync::mpsc::unbounded_channel::<bytes::Bytes>();
+        let dc = Arc::new(DataChannel::new(0, ChanCfg::negotiated(0, true).to_config()));
+        let chans = Arc::new(parking_lot::Mutex::new(vec![Arc::downgrade(&dc)]));
+        let (sctp, run) = SctpTransport::new(dtls[side].clone(), rx, chans, 5000, 5000, None, side == 0, &cfg);
+        runners.push(tokio::spawn(run));
+        // packets arriving at this side's DTLS go through the fault function into its SctpTransport
+        let mut app_rx = rxs.remove(0);
+        let fs: Vec<LiveFault> = faults.iter().filter(|f| f.to_server == (side == 1)).cloned().collect();
+        runners.push(tokio::spawn(async move {
+            let mut seen: std::collections::HashMap<u8, usize> = Default::default();
+            while let Some(pkt) = app_rx.recv().await {
+                let tys = chunk_types(&pkt);
+                let mut copies = 1;
+                for f in &fs {
+                    if tys.contains(&f.chunk_ty) { let n = seen.entry(f.chunk_ty).or_insert(0); if *n == 0 { copies = f.copies; } *n += 1; }
+                }
+                for _ in 0..copies { let _ = tx.send(pkt.clone()); }
+            }
+        }));
+        ends.push((sctp, dc));
+    }
+    // wait for Open on both sides
+    let mut note = String::new();
+    for (i, (_, dc)) in ends.iter().enumerate() {
+        match tokio::time::timeout(Duration::from_secs(10), dc.recv()).await {
+            Ok(Some(DataChannelEvent::Open)) => {}
+            other => note.push_str(&format!("side {} no Open: {:?}; ", i, other.map(|e| format!("{:?}", e)))),
+        }
+    }
+    let msgs = |side: usize| -> Vec<Vec<u8>> { (0..4u8).map(|k| vec![b'A' + side as u8, k, 0x55]).collect() };
+    for side in 0..2 { for m in msgs(side) { let _ = ends[side].0.send_data(0, &m).await; } }
+    let mut got = vec![vec![], vec![]];
+    let mut closed = false;
+    for side in 0..2 {
+        let deadline = tokio::time::Instant::now() + Duration::from_secs(10);
+        while got[side].len() < 4 {
+            let left = deadline.saturating_duration_since(tokio::time::Instant::now());
+            if left.is_zero() { break; }
+            match tokio::time::timeout(left, ends[side].1.recv()).await {
+                Ok(Some(DataChannelEvent::Message(m))) => got[side].push(m.to_vec()),
+                Ok(Some(DataChannelEvent::Close)) | Ok(None) => { closed = true; break; }
+                Ok(Some(DataChannelEvent::Open)) => note.push_str("second Open; "),
+                Err(_) => break,
+            }
+        }
+        if ends[side].0.close_reason().is_some() { closed = true; }
+    }
+    for (s, _) in &ends { s.close(); }
+    for r in runners { r.abort(); }
+    let g1 = got.pop().unwrap();
+    let g0 = got.pop().unwrap();
+    (g0, g1, closed, note)
+}
+
+async fn live_case(name: &'static str, faults: Vec<LiveFault>) -> Case {
+    let (at_client, at_server, closed, note) = live_pair(faults.clone()).await;
+    let want = |side: u8| -> Vec<Vec<u8>> { (0..4u8).map(|k| vec![b'A' + side, k, 0x55]).collect() };
+    let mut fail = None;
+    if !closed {
+        if at_client != want(1) { fail = Some(format!("live pair, fault '{}': server -> client delivered {} of 4 messages ({:?}), nobody reported the channel closed", name, at_client.len(), at_client)); }
+        else if at_server != want(0) { fail = Some(format!("live pair, fault '{}': client -> server delivered {} of 4 messages ({:?}), nobody reported the channel closed", name, at_server.len(), at_server)); }
+        else if !note.is_empty() { fail = Some(format!("live pair, fault '{}': {}", name, note)); }
+    }
+    Case { term: "-".into(), desc: json!({"kind": "live-pair", "fault": name, "faults": faults.iter().map(|f| json!({"to_server": f.to_server, "first_datagram_with_chunk_type": f.chunk_ty, "copies": f.copies})).collect::<Vec<_>>(),
+            "client_received": at_client.len(), "server_received": at_server.len(), "closed": closed, "note": note}),
+        oracle_fail: fail, known: None, nontrivial: true, key: key_of(&format!("live{:?}", faults)), kind: "live-pair".into() }
+}
+
 #[tokio::main(flavor = "multi_thread", worker_threads = 8)]
 async fn main() {
     let args = parse_args();
@@ -490,6 +588,18 @@ async fn main() {
             kind: p.kind.to_string(),
         });
     }
+    // live two-endpoint scenarios: duplicated setup datagrams, then data in both directions
+    let f = |name, to_server, chunk_ty, copies| LiveFault { name, to_server, chunk_ty, copies };
+    let live: Vec<(&'static str, Vec<LiveFault>)> = vec![
+        ("none", vec![]),
+        ("INIT delivered twice", vec![f("dup-init", true, 1, 2)]),
+        ("INIT delivered three times", vec![f("dup-init3", true, 1, 3)]),
+        ("INIT-ACK delivered twice", vec![f("dup-init-ack", false, 2, 2)]),
+        ("COOKIE-ECHO delivered twice", vec![f("dup-cookie-echo", true, 10, 2)]),
+        ("COOKIE-ACK delivered twice", vec![f("dup-cookie-ack", false, 11, 2)]),
+        ("INIT twice and INIT-ACK twice", vec![f("dup-init", true, 1, 2), f("dup-init-ack", false, 2, 2)]),
+    ];
+    for (name, faults) in live { let c = live_case(name, faults).await; *kinds.entry("live-pair".into()).or_default() += 1; out.push(c); }
     out.finish(json!({"generator": {"tier": args.tier, "seed": args.seed, "kinds": kinds, "arrival_orders": orders,
         "t0": "1/6 just below 2^32, 1/6 0..2, 1/6 around 2^31, else uniform u32",
         "sizes": "0,1,2,mps-1,mps,mps+1,2mps,2mps+1,3mps with mps 1..6 (1171/1172/1200 in 1/40 of cases); corpus 1171,1172,1173,2344,65536",
